@@ -298,6 +298,11 @@ class RandomLeg(object):
                         )
         # Feature.bin
         if fmt == "gff":
+            if case["dot"] == "none" and in_range(s, s - 1, "gff") and s >= 1 and s < MAXC:
+                z = Feature(seqid="c", start=s, end=s - 1)  # zero-length feature: start = end + 1
+                if z.bin != bins(s, s - 1) or z.bin not in expect_one(s, s - 1):
+                    return Failure("zero-length Feature(start=%d, end=%d).bin = %r, bins() = %r, acceptable %s"
+                                   % (s, s - 1, z.bin, bins(s, s - 1), sorted(expect_one(s, s - 1))), sig={"kind": "feature-bin"})
             fs = "." if case["dot"] in ("start", "both") else s
             fe = "." if case["dot"] in ("end", "both") else e
             f = Feature(seqid="c", start=fs, end=fe)
@@ -336,7 +341,7 @@ class StoredBinLeg(object):
                                       "dstart": shift, "dend": shift})
         return st.fixed_dictionaries({
             "features": st.lists(feat, min_size=1, max_size=6),
-            "route": st.sampled_from(["transform", "edit-then-create", "edit-then-update-replace", "plain"]),
+            "route": st.sampled_from(["transform", "edit-then-create", "edit-then-update-replace", "plain", "add_relation-func"]),
         })
 
     def _final(self, f, route):
@@ -382,6 +387,20 @@ class StoredBinLeg(object):
                 x.start, x.end = s_, e_
                 edited.append(x)
             db.update(edited, merge_strategy="replace", make_backup=False)
+        elif route == "add_relation-func":
+            # add_relation() re-writes the feature its parent_func / child_func returns
+            anchor = Feature(seqid="chr1", source="s", featuretype="gene", start=1, end=2, strand="+", attributes={"ID": ["anchor"]})
+            db = gffutils.create_db(feats + [anchor], ":memory:")
+            for i, (s_, e_) in enumerate(finals):
+                def move(parent, child, _s=s_, _e=e_, _as_parent=(i % 2 == 0)):
+                    tgt = parent if _as_parent else child
+                    tgt.start, tgt.end = _s, _e
+                    return tgt
+
+                if i % 2 == 0:
+                    db.add_relation("f%d" % i, "anchor", 1 + i, parent_func=move)
+                else:
+                    db.add_relation("anchor", "f%d" % i, 1 + i, child_func=move)
         else:
             db = gffutils.create_db(feats, ":memory:")
         rows = dict((r[0], (r[1], r[2], r[3])) for r in db.execute("SELECT id, start, end, bin FROM features"))
@@ -401,6 +420,15 @@ class StoredBinLeg(object):
             hit = [x.id for x in db.region(("chr1", s_, e_), completely_within=True)]
             if fid not in hit:
                 return Failure("region(chr1:%d-%d, completely_within=True) does not return %s stored exactly there" % (s_, e_, fid),
+                               sig={"kind": "stored-bin-query"})
+        # a query wide enough to overlap >= 900 bins, through limit= and through region()
+        wide_hi = min(MAXC - 1, max(e_ for s_, e_ in finals) + (1 << 27))
+        want_wide = set("f%d" % i for i, (s_, e_) in enumerate(finals) if e_ <= wide_hi)
+        for what, got_wide in (("all_features(limit=…, completely_within=True)", set(x.id for x in db.all_features(limit=("chr1", 1, wide_hi), completely_within=True))),
+                               ("features_of_type(limit=…)", set(x.id for x in db.features_of_type("gene", limit=("chr1", 1, wide_hi)))),
+                               ("region(…, completely_within=True)", set(x.id for x in db.region(("chr1", 1, wide_hi), completely_within=True)))):
+            if not want_wide <= got_wide:
+                return Failure("%s over chr1:1-%d misses stored features %r" % (what, wide_hi, sorted(want_wide - got_wide)),
                                sig={"kind": "stored-bin-query"})
         whole = set(x.id for x in db.region(("chr1", 1, MAXC), completely_within=True))
         inside = set("f%d" % i for i, (s_, e_) in enumerate(finals) if e_ <= MAXC)
